@@ -293,14 +293,14 @@ def peephole_tie(ctx):
     (Peephole.v, JumpOpt.v) on generated stack code / labelled code containing every pattern and on the unoptimised
     assemblies (runtime + deploy) the compiler emits for the corpus contracts."""
     rnd = ctx.rng("asm")
-    k = 150 if ctx.tier != "thorough" else 1000
+    k = 70 if ctx.tier != "thorough" else 1000
     asms = [("gen", c15_asm.gen_asm(rnd, rnd.randrange(3, 40))) for _ in range(k)]
     asms += [("genl", c15_asm.gen_labelled_asm(rnd, rnd.randrange(3, 45))) for _ in range(2 * k)]
     names = None
     if ctx.tier != "thorough":
         from vlib.c02_corpus import CORPUS
         from vlib.c15_corpus import OWN
-        names = set(rnd.sample([c["name"] for c in CORPUS], 5) + [c["name"] for c in OWN][:3])
+        names = set(rnd.sample([c["name"] for c in CORPUS], 2) + rnd.sample([c["name"] for c in OWN], 2))
     try:
         corpus = c15_asm.corpus_assemblies(names)
     except Exception:  # noqa
@@ -417,7 +417,8 @@ def run(ctx):
     t0 = time.time()
     b = {"ok": False}
     files = ["C15/GenUtils.v", "C15/Optimizer.v", "C15/OptTree.v", "C15/FoldSound.v", "C15/PropsFold.v", "C15/OptSound.v",
-             "C15/OptTreeSound.v", "C15/MergeSound.v", "C15/PropsOpt.v", "C15/Peephole.v", "C15/PeepholeSound.v", "C15/PropsPeephole.v"]
+             "C15/OptTreeSound.v", "C15/MergeSound.v", "C15/PropsOpt.v", "C15/Peephole.v", "C15/PeepholeSound.v", "C15/JumpOpt.v", "C15/JumpSem.v",
+             "C15/JumpSound.v", "C15/JumpSound2.v", "C15/PropsPeephole.v"]
     if gen_err is None:
         b = ctx.coq_build(files)
     model_ok = gen_err is None and (COQ / "C15" / "OptTree.vo").exists() and \
